@@ -49,8 +49,10 @@ def programs(rnd, filters, tier):
                 add("{% for x in " + e + " %}[{{ x }}]{% endfor %}", tag=f)
                 add("{{ " + e + "|join(s) }}", tag=f)
                 add("{{ (" + e + ")|string }}{{ " + e + "|list }}", tag=f)
+                if subj in ("s", "L") or tier != "quick":
+                    add("{% filter " + f + a + " %}t{{ " + subj + " }}u{% endfilter %}", tag="filterblock:" + f)
                 if tier != "quick":
-                    add("{% set v = " + e + " %}{{ v }}{% filter " + f + a + " %}t{{ " + subj + " }}{% endfilter %}", tag=f)
+                    add("{% set v = " + e + " %}{{ v }}", tag=f)
                     add("{{ m ~ (" + e + ") }}{{ (" + e + ") ~ m }}", tag=f)
     # chains of two filters
     names = [f for f in sorted(filters) if f not in SKIP and f != "xmlattr"]
@@ -143,7 +145,7 @@ def run(ck):
         p = pmap[rec["id"]]
         ck.violation({"kind": "scan", "src": p["src"], "mode": p["mode"], "out": rec["text"]},
                      f"unescaped markup reaches the output: {p['src']!r} -> {rec['text']!r:.200}",
-                     {"kind": "scan-leak", "filter": p["tag"]})
+                     {"kind": "scan-leak", "filter": p["tag"], "shape": "filterblock" if p["tag"].startswith("filterblock:") else "expression"})
     ck.traces += len(rendered)
     ck.evaluations += len(progs)
     ck.extra["scan_programs"] = len(progs)
